@@ -27,6 +27,16 @@ for p in props:
         })
     else:
         na.append({"property_id": i, "reason": (e or {}).get("na_reason", "check not built yet (work in progress); no claim is made for this property")})
+ENGINES = [
+ ("harness+vcheck", "internal/harness, vcheck", "all", "runner: sharded worker processes, case seeding, measured coverage, race-log parsing, known-findings matching"),
+ ("refpolicy/rulegen/nfsim", "internal/refpolicy, internal/rulegen, internal/nfsim", "C08 C09 C10 C11 C12 C30 C40 C41", "reference policy semantics, rule/packet/layout generators, evaluator of rendered iptables/nft text"),
+ ("calcgen/shadowdp", "internal/calcgen, internal/shadowdp", "C01 C02 C03 C05 C31", "datastore history generator + real calc-graph driver; shadow dataplane folding Felix's output stream with online ordering checks"),
+ ("casstore/dsched/ipamkit", "internal/casstore, internal/dsched, internal/ipamkit", "C19 C20 C21 C22 C23 C38", "in-memory CAS datastore with fault hooks, deterministic scheduler (uniform/PCT/bounded-exhaustive), IPAM monitors + porcupine model"),
+ ("fake kernels", "internal/fakeipt, internal/fakeipset, internal/fakenl", "C15 C16 C17", "iptables-save/restore, ipset and netlink route-table models with per-command fault injection"),
+ ("bpfsys/bpfvm/polexec", "internal/bpfsys, internal/bpfvm, internal/polexec", "C11 C12", "raw bpf() loader/test-run in the real kernel; eBPF interpreter with stack sanitizer"),
+ ("cprobe/cstub", "cprobe, cstub", "C13 C14", "C layout probe compiled with clang -target bpf; native ASan/UBSan build of conntrack_cleanup.c"),
+]
+m["engines"] = [{"name": n, "path": p, "serves_properties": sp.split() if sp != "all" else [c["property_id"] for c in checks], "kind_free_text": k} for n, p, sp, k in ENGINES]
 m["checks"] = checks
 m["not_applicable"] = na
 hooks = os.path.join(R, "MANIFEST.hooks")
